@@ -43,6 +43,7 @@ def pipeline(rng):
     rec = W.gen_reshape_op(rng, ["recreate"])
     mat = W.gen_reshape_op(rng, ["match"])
     mat["strategy"] = "closest"
+    mat.pop("s", None)        # the averages are reproduced by the matching itself; a final smoothing would move them
     return [rec, mat]
 
 
